@@ -15,7 +15,10 @@
    guarded by the Dev* constants.                                              *)
 EXTENDS Integers, Sequences, FiniteSets, TLC, SequencesExt
 
-CONSTANTS DevNoticeInSpan      \* open finding C06: a notice line inside a retained match's line span is not reported
+CONSTANTS DevNoticeInSpan,     \* open finding C06: a notice line inside a retained match's line span is not reported
+          DevClampShift,       \* open finding C07: fuseRanges clamps negative offsets only at the start of the input
+          DevC11HyphenToken,   \* open finding C11: a token ending in "-" that ends a line of Normalize's output is re-joined
+          DevC11CleanedNotice  \* open finding C11: the cleaned words of a line read as a copyright notice
 
 VARIABLES corpus,   \* classifier -> set of keys
           last,     \* input id -> result record of the most recent Match/MatchFrom on it
@@ -150,7 +153,7 @@ LinesOf(ms) == [i \in 1..Len(ms) |-> ms[i].sl]
 InSpan(L, ms) == \E i \in 1..Len(ms) : ms[i].sl <= L /\ L <= ms[i].el
 BagLeq(a, b) == \A x \in DOMAIN a : x \in DOMAIN b /\ a[x] <= b[x]
 
-PairOK(e) ==
+PairCore(e) ==
   LET a == last[e.a]  b == last[e.b]
       la == NonCopy(a.ms)  lb == NonCopy(b.ms)
       ca == [i \in 1..Len(Copy(a.ms)) |-> e.lmap[Copy(a.ms)[i].sl]]          \* a's notice lines, mapped
@@ -165,5 +168,20 @@ PairOK(e) ==
                 /\ \A L \in Rng(want) :
                       Get(BagOf(got), L, 0) < BagOf(want)[L] => InSpan(L, lb)
                 /\ PrintT(<<"DEV", "DevNoticeInSpan", e.a, e.b>>) )
+
+(* C07 as built: the matches that differ belong to documents whose stand-alone run went through the
+   negative-offset clamp of fuseRanges (hook event `clamp`), or overlap such a match *)
+ClampSig(e) ==
+  LET A == Rng(Moved(NonCopy(last[e.a].ms), e.dtok, e.lmap))
+      B == Rng(Strip(NonCopy(last[e.b].ms)))
+      D == (A \ B) \cup (B \ A)
+      C == {x \in D : x.k \in Rng(e.clampsA)}
+  IN C # {} /\ \A x \in D \ C : \E y \in C : ~(x.el < y.sl \/ y.el < x.sl)
+
+PairOK(e) ==
+  \/ PairCore(e)
+  \/ DevClampShift /\ e.kind = "shift" /\ ClampSig(e) /\ PrintT(<<"DEV", "DevClampShift", e.a, e.b>>)
+  \/ DevC11HyphenToken /\ e.alignclass = "token-ends-in-hyphen" /\ PrintT(<<"DEV", "DevC11HyphenToken", e.a, e.b>>)
+  \/ DevC11CleanedNotice /\ e.alignclass = "cleaned-line-is-notice" /\ PrintT(<<"DEV", "DevC11CleanedNotice", e.a, e.b>>)
 Pair(e) == e.a \in DOMAIN last /\ e.b \in DOMAIN last /\ PairOK(e) /\ UNCHANGED cvars
 =============================================================================
